@@ -313,12 +313,17 @@ def graph_facts(target_ctx, import_irs):
             else:
                 i = CacheableImportInfo.from_file(s.module_spec.origin)
                 out.append([str(i.filepath), i.filehash])
+                if str(i.filepath) != str(Path(s.module_spec.origin)):
+                    not_origin.append([s.module_name, str(s.module_spec.origin), str(i.filepath)])
         return out
+
+    not_origin = []
 
     a = Config().arguments
     return {"target": target, "modules": list(modules.values()),
             "cacheInfos": {"target": infos(target_ctx),
                            "modules": sorted([[n, infos(f.context)] for n, f in import_irs.items()])},
+            "recordedNotOrigin": not_origin,
             "flags": {"loc": bool(a.follow_local_imports), "pip": bool(a.follow_pip_imports),
                       "stdlib": bool(a.follow_stdlib_imports)}}
 
@@ -334,7 +339,9 @@ def analyse_documents(projdir):
     from rattr.models.util import serialise, serialise_irs
     from rattr.results import generate_results_from_ir
 
-    with impl.in_dir(str(projdir)):
+    from props import c18_alias
+
+    with impl.in_dir(str(projdir)), c18_alias.extra_sys_path(projdir):
         impl.reset_config(target=Path("target.py"))
         with impl.Tap():
             file_ir, import_irs, _ = parse_and_analyse_file()
